@@ -3,6 +3,7 @@ NC = 2
 NR = 2
 Limit = 1
 Mutant = 0
+BigC = 1
 INIT TInit
 NEXT TNext
 POSTCONDITION Verdict
